@@ -26,16 +26,16 @@ echo "patch: $(grep -c '^[+-][^+-]' $dst/patch.diff) changed lines in $(grep -c 
 # 2. demo red with the change, green without
 pkg=${5:-}
 if [ -n "$pkg" ]; then
-  go test -vet=off -count=1 -run 'VerifDemo' $pkg > $dst/demo_with_change.log 2>&1; echo "demo with change: exit $?"
+  timeout 600 go test -vet=off -count=1 -run 'VerifDemo' $pkg > $dst/demo_with_change.log 2>&1; echo "demo with change: exit $?"
   git apply -R $dst/patch.diff
-  go test -vet=off -count=1 -run 'VerifDemo' $pkg > $dst/demo_without_change.log 2>&1; echo "demo without change: exit $?"
+  timeout 600 go test -vet=off -count=1 -run 'VerifDemo' $pkg > $dst/demo_without_change.log 2>&1; echo "demo without change: exit $?"
   git apply $dst/patch.diff
 fi
 # 3. the check against the change, applied to /repo and undone straight afterwards
 cd /verif
 if ! git -C /repo diff --quiet; then echo "/repo is dirty, not applying"; exit 2; fi
 git -C /repo apply $dst/patch.diff || exit 2
-bin/vcheck $prop --tier $tier --no-evidence > $dst/check_$prop.log 2>&1; rc=$?
+timeout 1500 bin/vcheck $prop --tier $tier --no-evidence > $dst/check_$prop.log 2>&1; rc=$?
 git -C /repo checkout -- .
 echo "check $prop ($tier) against the change: exit $rc"
 grep -E "^VIOLATION|^KNOWN|^OK|MACHINERY" $dst/check_$prop.log | head -8
